@@ -1,4 +1,28 @@
 package main
 
+import (
+	"flag"
+	"fmt"
+)
+
 func runSelfTests(id, dir string) []SelfTestResult { return nil }
-func cmdDiscover(args []string) int               { return 0 }
+
+func cmdDiscover(args []string) int {
+	if len(args) < 1 {
+		usage()
+	}
+	fs := flag.NewFlagSet("discover", flag.ExitOnError)
+	repo := fs.String("repo", "", "repository directory")
+	fs.Parse(args[1:])
+	p, err := loadProg(repoDir(*repo), defaultConfig)
+	if err != nil {
+		fmt.Println("BROKEN:", err)
+		return 2
+	}
+	theClosures = buildClosureInfo(p)
+	switch args[0] {
+	case "guard":
+		discoverGuards(p)
+	}
+	return 0
+}
